@@ -79,6 +79,30 @@ void ExpressionBuilder::handle_error(const TypeException& ex) { document.add_err
 
 void ExpressionBuilder::handle_warning(const TypeException& ex) { document.add_warning(position, ex.what()); }
 
+void ExpressionBuilder::parse_begin()
+{
+    fragmentsMark = fragments.size();
+    typeFragmentsMark = typeFragments.size();
+    framesMark = frames.size();
+}
+
+void ExpressionBuilder::parse_end(bool success)
+{
+    // Every production that opens a scope also closes it, so a scope that is still open now belongs to
+    // a production discarded by error recovery (e.g. the binder of a quantifier whose body is
+    // malformed); names of the following blocks must not be resolved in it.
+    while (frames.size() > framesMark)
+        frames.pop();
+    if (success)
+        return;
+    // The grammar gave up in the middle of some production: the operands and types it pushed would be
+    // picked up by the next block.
+    while (fragments.size() > fragmentsMark)
+        fragments.pop();
+    while (typeFragments.size() > typeFragmentsMark)
+        typeFragments.pop();
+}
+
 void ExpressionBuilder::push_frame(frame_t frame) { frames.push(std::move(frame)); }
 
 void ExpressionBuilder::popFrame() { frames.pop(); }
